@@ -111,6 +111,10 @@ func (p *Program) rolesOf(typ string) storeRoles {
 						ints = append(ints, f)
 					} else if _, isFree := st.Val.(*ssa.FreeVar); isFree {
 						ints = append(ints, f)
+					} else if u, isU := st.Val.(*ssa.UnOp); isU {
+						if _, isFree := u.X.(*ssa.FreeVar); isFree {
+							ints = append(ints, f)
+						}
 					}
 				}
 			}
